@@ -107,6 +107,7 @@ def wl_C02(tier, rng):
 
 def wl_C03(tier, rng):
     yield from wl_statemachine(["dir", "und"], tier, rng, labelled_only=True, setlabel=True)
+    yield from _c03_ctor_family(tier, rng)
     # hasEdge(i,j,label) queries on random states
     for _ in range(scale(tier, 300, 5000)):
         cls = rng.choice(SIMPLE)
@@ -120,6 +121,30 @@ def wl_C03(tier, rng):
             ops.append(f"q 0 hasEdgeL {i} {j} {gen.label_tok(rng, kind)}")
             ops.append(f"q 0 getEdgeLabel {i} {j} {rng.choice([0, 1, 'd'])}")
         yield (meta, ops)
+
+
+def _c03_ctor_family(tier, rng):
+    """edge creation through the container constructors: a pair listed again (other orientation when undirected,
+    self-loops too) with another label keeps the label it was created with, exactly as repeated addEdge does"""
+    for _ in range(scale(tier, 200, 4000)):
+        cls = rng.choice(["dir", "und"])
+        kind = rng.choice(KINDS_LAB)
+        n = rng.randint(1, 6)
+        trip, pairs = [], []
+        for _ in range(rng.randint(1, 8)):
+            if pairs and rng.random() < 0.45:
+                i, j = rng.choice(pairs)
+                if cls == "und" and rng.random() < 0.5:
+                    i, j = j, i
+            else:
+                i, j = gen.pick_pair(rng, n)
+            pairs.append((i, j))
+            trip += [str(i), str(j), str(gen.label_tok(rng, kind))]
+        ops = [f"ctor 0 {cls} {kind} {rng.choice(['vector', 'list', 'deque', 'flist'])} " + " ".join(trip)]
+        for (i, j) in pairs[:5]:
+            ops.append(f"q 0 getEdgeLabel {j} {i} {rng.choice([0, 1, 'd'])}")
+            ops.append(f"q 0 hasEdgeL {i} {j} {gen.label_tok(rng, kind)}")
+        yield ({"cls": cls, "kind": kind, "n": n, "len": len(ops), "family": "ctor-repeats"}, ops)
 
 
 def big_multiplicity_family(tier, rng):
